@@ -55,6 +55,7 @@ impl Gran {
         match n {
             "coarse" => Gran::Coarse,
             "coarse+pass0.item" => Gran::Tags(&["pass0.item"]),
+            "coarse+expr.resolve" => Gran::Tags(&["expr.resolve"]),
             _ => Gran::Fine,
         }
     }
@@ -69,7 +70,9 @@ thread_local! {
 
 fn tag_selected(gran: Gran, tag: &str) -> bool {
     match gran {
-        Gran::Fine => true,
+        // (the points inside expression evaluation - one per symbol resolution - are only used
+        // where a configuration asks for them)
+        Gran::Fine => tag != "expr.resolve",
         Gran::Coarse => tag.starts_with("build.") || tag.starts_with("directive."),
         Gran::Tags(t) => tag.starts_with("build.") || tag.starts_with("directive.") || t.contains(&tag),
     }
@@ -123,11 +126,29 @@ fn wait_for_turn(me: usize) {
 }
 
 /// the hook installed into avra-rs
+thread_local! {
+    /// symbol resolutions seen by this thread (every execution runs on fresh threads)
+    static RESOLUTIONS: Cell<u64> = Cell::new(0);
+}
+
+/// a scheduling point at every 8192nd symbol resolution of a thread: evaluations of tens of
+/// thousands of resolutions get a handful of points
+const RESOLVE_STRIDE: u64 = 8192;
+
 pub fn hook(tag: &'static str) {
     let me = match TID.with(|t| t.get()) {
         Some(m) => m,
         None => return,
     };
+    if tag == "expr.resolve" {
+        let n = RESOLUTIONS.with(|c| {
+            c.set(c.get() + 1);
+            c.get()
+        });
+        if n % RESOLVE_STRIDE != 0 {
+            return;
+        }
+    }
     {
         let mut g = SCHED.lock().unwrap();
         let inner = match g.as_mut() {
